@@ -15,6 +15,8 @@ and — with the guarded hook — flags, `m_route_dist` and the static-graph fla
                (what the new scene consists of, from Model/ActionQueue.runPasses)
 * flags stick: `flag_persists` (never routed / no path found / end changed earlier), `endpoint_change_flags`,
                `orthogonal_always_rerouted`
+* contains:    `contains_incremental_eq_scratch` (Router::contains maintained by the three loops = its from-scratch
+               meaning; the driver compares the real map with the from-scratch set after every processing point)
 * removal:     `removal_estimate_min_horizontal/_vertical` (start and end on the same side of the side's line:
                the as-coded point minimises the detour over the side, for EVERY norm-like length),
                `removal_flag_complete_same_side`, `removal_complete_shorter_path_same_side` (then the as-coded test
@@ -27,6 +29,7 @@ import AdaptaVerif.Lemmas.Reroute
 import AdaptaVerif.Lemmas.RerouteGeom
 import AdaptaVerif.Lemmas.RerouteEstimateModel
 import AdaptaVerif.Lemmas.RerouteScene
+import AdaptaVerif.Lemmas.RerouteContains
 import AdaptaVerif.Lemmas.Sqrt
 import AdaptaVerif.Props.C06
 import Mathlib.Data.Rat.Cast.Order
@@ -314,6 +317,56 @@ theorem orthogonal_always_rerouted (cid : Nat) (lt3 : Lt3) (rpOld rpNew : Polys)
 -- an orthogonal connector has `falsePath` after its first routing
 example : ∃ c ∈ (routedOne 7 [(⟨0, 0⟩, VKey.ofEnd 7 .src), (⟨3, 0⟩, VKey.ofEnd 7 .tar)] (addConn false 7 {})).conns,
     c.id = 7 ∧ c.falsePath = true := by decide
+
+/-! ### `Router::contains`: incremental = from scratch -/
+
+open AdaptaVerif.Lemmas.RerouteContains in
+/-- **contains_incremental_eq_scratch.** If before the transaction every entry of `Router::contains` has its
+    from-scratch meaning for the old scene (ids = the active obstacles whose routing polygon strictly contains
+    the end point), then after `processActions` — erase per removed / moved obstacle, conditional insert per
+    added / moved obstacle with its NEW polygon, regeneration per updated end point — every entry has its
+    from-scratch meaning for the new scene.  Hypotheses on the scene transition (what the three loops of
+    Model/ActionQueue do to the active set): an obstacle is active afterwards iff it was active and is not the
+    target of a Remove / Move, or it is the target of an Add / Move; a freshly added obstacle was not active;
+    an obstacle at which no action is aimed keeps its routing polygon. -/
+theorem contains_incremental_eq_scratch (activeOld activeNew : List Nat) (rpOld rpNew : Polys)
+    (acts : List Action) (cs : List CEntry)
+    (hA : ∀ o, o ∈ activeNew ↔ ((o ∈ activeOld ∧ ∀ a ∈ acts, ¬ (isRM a = true ∧ a.id = o)) ∨
+                                 ∃ a ∈ acts, isAM a = true ∧ a.id = o))
+    (hC : ∀ o, (∃ a ∈ acts, isAM a = true ∧ a.id = o) → (∀ a ∈ acts, ¬ (isRM a = true ∧ a.id = o)) → o ∉ activeOld)
+    (hB : ∀ o, (∀ a ∈ acts, ¬ (isRM a = true ∧ a.id = o)) → (¬ ∃ a ∈ acts, isAM a = true ∧ a.id = o) → rpNew o = rpOld o)
+    (hold : ∀ e ∈ cs, e.scratch activeOld rpOld) :
+    ∀ e ∈ cTxn activeNew rpNew acts cs, e.scratch activeNew rpNew := by
+  intro e he
+  rw [cTxn_eq] at he
+  obtain ⟨e0, he0, rfl⟩ := List.mem_map.mp he
+  apply fold3_scratch
+  obtain ⟨_, p1, m1⟩ := fold1_spec acts e0
+  obtain ⟨_, p2, m2⟩ := fold2_spec rpNew acts (acts.foldl ePass1 e0)
+  have h0 := hold e0 he0
+  intro o
+  rw [m2, m1, p2, p1, h0 o]
+  constructor
+  · rintro (⟨⟨hact, hin⟩, hrm⟩ | ⟨a, ha, ham, hid, hin⟩)
+    · by_cases hamx : ∃ a ∈ acts, isAM a = true ∧ a.id = o
+      · exact absurd hact (hC o hamx hrm)
+      · rw [hB o hrm hamx]
+        exact ⟨(hA o).mpr (Or.inl ⟨hact, hrm⟩), hin⟩
+    · exact ⟨(hA o).mpr (Or.inr ⟨a, ha, ham, hid⟩), hin⟩
+  · rintro ⟨hnew, hin⟩
+    by_cases hamx : ∃ a ∈ acts, isAM a = true ∧ a.id = o
+    · obtain ⟨a, ha, ham, hid⟩ := hamx
+      exact Or.inr ⟨a, ha, ham, hid, hin⟩
+    · rcases (hA o).mp hnew with ⟨hact, hrm⟩ | h
+      · rw [hB o hrm hamx] at hin
+        exact Or.inl ⟨⟨hact, hin⟩, hrm⟩
+      · exact absurd h hamx
+
+-- non-vacuity: obstacle 1 (a square around the end point) is moved away, obstacle 2 is added around it
+example :
+    (cTxn [2, 1] (fun o => if o = 2 then [⟨3, -3⟩, ⟨3, 3⟩, ⟨-3, 3⟩, ⟨-3, -3⟩] else [⟨13, -3⟩, ⟨13, 3⟩, ⟨7, 3⟩, ⟨7, -3⟩])
+      [{ kind := .move, id := 1 }, { kind := .add, id := 2 }]
+      [{ key := VKey.ofEnd 9 .src, pt := ⟨0, 0⟩, ids := [1] }]).map (·.ids) = [[2]] := by decide +kernel
 
 /-! ### completeness for removal: the "could be shorter" estimate -/
 
